@@ -87,7 +87,9 @@ func (l Level) MarshalValue() data.Value {
 	}
 	return data.Null{}
 }
-func (l Label) MarshalValue() data.Value { return data.List{data.String("label"), data.String(string(l))} }
+func (l Label) MarshalValue() data.Value {
+	return data.List{data.String("label"), data.String(string(l))}
+}
 
 func levelValue(i int64) ref.Value {
 	switch Level(i) {
